@@ -189,6 +189,16 @@ fn c06_nonfinite(ctx: &mut Ctx) {
         let ops = [ta < tb, ta <= tb, ta > tb, ta >= tb, tb < ta, tb <= ta, tb > ta, tb >= ta];
         check!(ctx, ops.iter().all(|x| !x), "inequality true with a NaN word: {} vs {}: {:?}", a.show(), b.show(), ops);
     }
+    // the same two relational laws against an f64 on either side (any f64, infinities and NaN
+    // included): `==` symmetric, and true precisely when partial_cmp says Equal
+    let c = if ctx.chance(1, 3) { [f64::INFINITY, f64::NEG_INFINITY, f64::NAN, 0.0, -0.0, f64::MAX, f64::MIN][ctx.below(7) as usize] } else if ctx.flag() { a.hi } else { f64_any(ctx) };
+    ctx.note("c", || showf(c));
+    let (eq_ac, eq_ca) = (ta == c, c == ta);
+    let (pc_ac, pc_ca) = (ta.partial_cmp(&c), c.partial_cmp(&ta));
+    check!(ctx, eq_ac == eq_ca, "== is not symmetric between {} and the f64 {}: TwoFloat == f64 is {}, f64 == TwoFloat is {}", a.show(), showf(c), eq_ac, eq_ca);
+    check!(ctx, eq_ac == (pc_ac == Some(Ordering::Equal)), "({} == {}) = {} but partial_cmp = {:?}", a.show(), showf(c), eq_ac, pc_ac);
+    check!(ctx, eq_ca == (pc_ca == Some(Ordering::Equal)), "({} == {}) = {} but partial_cmp = {:?}", showf(c), a.show(), eq_ca, pc_ca);
+    check!(ctx, (ta != c) == !eq_ac && (c != ta) == !eq_ca, "!= inconsistent with == on ({}, {})", a.show(), showf(c));
     ctx.set_nontrivial(!a.valid() || !b.valid());
 }
 
@@ -604,6 +614,22 @@ fn c12_angle(ctx: &mut Ctx) {
                 if ctx.flag() { Dd::new(hi, 0.0) } else { dd_at(ctx, hi) }
             }
         }
+        None if ctx.chance(1, 5) => {
+            // x such that an INTERMEDIATE of a plausible evaluation order (x*180, x/pi, x*pi, x/180,
+            // or the result itself) lands just above a power of two, with a low word that is a
+            // uniform fraction of the admissible half ulp: where two stacked roundings line up
+            ctx.label("arg:intermediate-just-above-pow2");
+            let c = [180.0, 1.0 / 180.0, std::f64::consts::PI, std::f64::consts::FRAC_1_PI, 180.0 / std::f64::consts::PI, std::f64::consts::PI / 180.0][ctx.below(6) as usize];
+            let k = exp_in(ctx, -440, 440);
+            let eps = pow2_f64(-ctx.range(3, 30)) * (1.0 + ctx.bits(20) as f64 / 1048576.0);
+            let hi = pow2_f64(k) / c * (1.0 + eps);
+            let hi = if ctx.flag() { -hi } else { hi };
+            let half = pow2_f64(exponent(hi) - 53);
+            let frac = ctx.bits(30) as f64 / 1073741824.0;
+            let lo = half * frac * if ctx.flag() { -1.0 } else { 1.0 };
+            let d = Dd::new(hi, lo);
+            if d.valid() && exponent(hi) >= -450 && exponent(hi) < 450 { d } else { dd_closed(ctx, -450, 450, true) }
+        }
         None => dd_closed(ctx, -450, 450, true),
     };
     x.key(ctx);
@@ -639,7 +665,7 @@ pub fn c12() -> Property {
         subchecks: vec![
             SubCheck { name: "table", kind: Kind::Enumerated { n: N_CONST + 7 }, eval: c12_table, quick: 0, thorough: 0 },
             SubCheck { name: "bounds", kind: Kind::Generated { words: 24, max_items: 0 }, eval: c12_bounds, quick: 1_000_000, thorough: 30_000_000 },
-            SubCheck { name: "angle", kind: Kind::Generated { words: 24, max_items: 0 }, eval: c12_angle, quick: 600_000, thorough: 20_000_000 },
+            SubCheck { name: "angle", kind: Kind::Generated { words: 24, max_items: 0 }, eval: c12_angle, quick: 3_000_000, thorough: 100_000_000 },
         ],
     }
 }
